@@ -67,6 +67,7 @@ class Ctx:
         self.nviol = 0
         self.viol_keys = collections.Counter()
         self.samples = []
+        self.auto_samples = []         # a few of the enumerated cases, recorded by the driver itself
         self.harness_errors = []
         self._case = None
 
@@ -74,6 +75,8 @@ class Ctx:
     def begin_case(self, case):
         self.evals += 1
         self._case = case
+        if self.evals in (1, 7, 50, 400, 3000) and len(self.auto_samples) < MAX_SAMPLES:
+            self.auto_samples.append({'case': case})
         self.reseed()
 
     def reseed(self):
@@ -129,7 +132,8 @@ class Ctx:
     def export(self):
         return {'evals': self.evals, 'transitions': self.transitions, 'states': self.states, 'nontriv': self.nontriv,
                 'tags': self.tags, 'outcomes': self.outcomes, 'viol': self.viol, 'nviol': self.nviol,
-                'viol_keys': self.viol_keys, 'samples': self.samples, 'harness_errors': self.harness_errors}
+                'viol_keys': self.viol_keys, 'samples': self.samples, 'auto_samples': self.auto_samples,
+                'harness_errors': self.harness_errors}
 
 
 def innermost_repo_frame(tb):
@@ -338,6 +342,9 @@ def run_check(prop_id, tier, workers=16, confirm=True, write_evidence=True):
         tot.viol.extend(r['viol'])
         for s in r['samples']:
             tot.sample(s)
+        for s in r['auto_samples']:
+            if len(tot.auto_samples) < MAX_SAMPLES and (len(tot.auto_samples) < 2 or r['i'] % 3 == 0):
+                tot.auto_samples.append(s)
         tot.harness_errors.extend(r['harness_errors'])
 
     exhaustive = (not capped) and done_shards == len(shards)
@@ -399,7 +406,7 @@ def run_check(prop_id, tier, workers=16, confirm=True, write_evidence=True):
         'coverage': {
             'states': len(tot.states), 'transitions': tot.transitions,
             'traces_validated_against_impl': tot.transitions,
-            'samples': tot.samples or ['<none>'],
+            'samples': (tot.samples + tot.auto_samples)[:MAX_SAMPLES + 2] or ['<none>'],
             'evaluations': tot.evals, 'distinct_nontrivial': len(tot.nontriv),
             'rule': desc.get('rule', ''), 'exhaustive': bool(exhaustive),
             'distinct_outcomes': len(tot.outcomes),
